@@ -170,7 +170,9 @@ def grid_case(case, res):
             if float(np.max(orc[0][0][1])) > 1e3:
                 res.hits["|phi| > 1000 cycles (reduction mod 1 matters)"] += 1
             # ---- (2) dedispersed basis on the exact window
-            start, stop, unc, (dtop, dbot) = dispersion.coherent_crop(dmx, hz(base.min_freq), hz(base.max_freq), refx, srx, N)
+            # the band that is dedispersed: every channel covers its label +- half a channel (for 'bottom' / 'top' alignment of an
+            # even channel count that band is NOT center_freq +- bandwidth/2)
+            start, stop, unc, (dtop, dbot) = dispersion.coherent_crop(dmx, labels[0] - srx / 2, labels[-1] + srx / 2, refx, srx, N)
             if unc:
                 res.skipped["band-edge delay within 1e-9 of an integer"] += 1
                 continue
